@@ -241,16 +241,20 @@ Proof.
   destruct du2; [apply label_nodup|]; assumption.
 Qed.
 
+Lemma report_core_nodup cfg st t r v cont st' d :
+  report_core cfg st t r v cont = Ok (st', d) -> obs_nodup (srch st) -> obs_nodup (srch st').
+Proof.
+  unfold report_core. destruct (on_trial_result cfg st t r v cont) as [[st1 d1]|] eqn:E; cbn [bind]; [|discriminate].
+  intro H. inversion H; subst. intro Hn. pose proof (on_trial_result_nodup _ _ _ _ _ _ _ _ E Hn) as H1.
+  destruct d1; auto; unfold on_trial_remove; destruct (find t (trials st1)); auto.
+Qed.
+
 Lemma step_nodup cfg st e st' d : step cfg st e = Ok (st', d) -> obs_nodup (srch st) -> obs_nodup (srch st').
 Proof.
-  destruct e as [t b|t r v cont|t b|t r v|t]; cbn [step].
+  destruct e as [t b|t r v cont|t b|t r v|t|t r v]; cbn [step]; try (intros H Hn; exact (report_core_nodup _ _ _ _ _ _ _ _ H Hn)).
   - unfold on_start. destruct (find t (trials st)); [discriminate|].
     destruct (register_all _ _ _) as [s1|] eqn:ER; cbn [bind]; [|discriminate].
     intro H. inversion H; subst. cbn. unfold obs_nodup. rewrite (register_all_obs _ _ _ _ ER). auto.
-  - set (st0 := {| srch := srch st; trials := trials st; reps := _ |}).
-    destruct (on_trial_result cfg st0 t r v cont) as [[st1 d1]|] eqn:E; cbn [bind]; [|discriminate].
-    intro H. inversion H; subst. intro Hn. pose proof (on_trial_result_nodup _ _ _ _ _ _ _ _ E Hn) as H1.
-    destruct d1; auto; unfold on_trial_remove; destruct (find t (trials st1)); auto.
   - unfold on_resume. destruct (sty cfg); [discriminate|]. destruct (find t (trials st)) as [rec|]; [|discriminate].
     destruct (paused_at _ _) as [L|]; [|discriminate]. destruct (negb _); [discriminate|].
     destruct (decision_eqb _ _); [discriminate|].
@@ -276,30 +280,34 @@ Lemma bind_no_append {A B} (x : res A) (f : A -> res B) :
   x <> Error EAppendPending -> (forall a, f a <> Error EAppendPending) -> bind x f <> Error EAppendPending.
 Proof. destruct x; cbn; [intros _ H; apply H | intros H _ E; apply H; inversion E; reflexivity]. Qed.
 
+Lemma report_core_no_append cfg st t r v cont : report_core cfg st t r v cont <> Error EAppendPending.
+Proof.
+  unfold report_core. apply bind_no_append; [|intros [? ?]; discriminate].
+  unfold on_trial_result. destruct (find t (trials st)) as [rec|]; [|discriminate].
+  destruct (dec rec); try discriminate.
+  apply bind_no_append.
+  - unfold on_task_report. destruct (task_bracket rec); [|discriminate]. destruct (r <? max_t cfg); [|discriminate].
+    destruct (sty cfg).
+    + destruct (r =? max_t cfg); [discriminate|]. destruct (stop_loop _ _ _ _ _) as [[[? ?] ?] ?]. discriminate.
+    + destruct (running rec) as [[ms rf]|]; [|discriminate]. destruct (ms <=? r); [|discriminate].
+      destruct (negb _); [discriminate|]. destruct (mem_Z _ _); [|discriminate]. destruct (in_rung _ _); discriminate.
+  - intros [rec1 ti]. destruct (ignore_data ti); [discriminate|]. apply bind_no_append.
+    + unfold update_searcher. apply bind_no_append.
+      * destruct (fst (us_plan cfg r ti)); [|discriminate]. unfold us_internal. destruct (pol cfg); try discriminate.
+        destruct (reported rec1) as [[? ?]|]; [|discriminate]. destruct (negb _); [|discriminate].
+        unfold remove_case. destruct (is_labeled _ _ _); discriminate.
+      * intro s1. apply bind_no_append; [apply register_all_no_append | discriminate].
+    + intros [du s1]. apply bind_no_append; [|intros [? ?]; discriminate].
+      unfold lur_step. destruct du; [|discriminate].
+      match goal with |- context [if ?c then Error _ else _] => destruct c end; [discriminate|].
+      match goal with |- context [if ?c then _ else _] => destruct c end; discriminate.
+Qed.
+
 Lemma step_no_append cfg st e : step cfg st e <> Error EAppendPending.
 Proof.
-  destruct e as [t b|t r v cont|t b|t r v|t]; cbn [step].
+  destruct e as [t b|t r v cont|t b|t r v|t|t r v]; cbn [step]; try apply report_core_no_append.
   - apply bind_no_append; [|discriminate]. unfold on_start. destruct (find t (trials st)); [discriminate|].
     apply bind_no_append; [apply register_all_no_append | discriminate].
-  - apply bind_no_append; [|intros [? ?]; discriminate].
-    unfold on_trial_result. match goal with |- context [find t ?l] => destruct (find t l) as [rec|] end; [|discriminate].
-    destruct (dec rec); try discriminate.
-    apply bind_no_append.
-    + unfold on_task_report. destruct (task_bracket rec); [|discriminate]. destruct (r <? max_t cfg); [|discriminate].
-      destruct (sty cfg).
-      * destruct (r =? max_t cfg); [discriminate|]. destruct (stop_loop _ _ _ _ _) as [[[? ?] ?] ?]. discriminate.
-      * destruct (running rec) as [[ms rf]|]; [|discriminate]. destruct (ms <=? r); [|discriminate].
-        destruct (negb _); [discriminate|]. destruct (mem_Z _ _); [|discriminate]. destruct (in_rung _ _); discriminate.
-    + intros [rec1 ti]. destruct (ignore_data ti); [discriminate|]. apply bind_no_append.
-      * unfold update_searcher. apply bind_no_append.
-        -- destruct (fst (us_plan cfg r ti)); [|discriminate]. unfold us_internal. destruct (pol cfg); try discriminate.
-           destruct (reported rec1) as [[? ?]|]; [|discriminate]. destruct (negb _); [|discriminate].
-           unfold remove_case. destruct (is_labeled _ _ _); discriminate.
-        -- intro s1. apply bind_no_append; [apply register_all_no_append | discriminate].
-      * intros [du s1]. apply bind_no_append; [|intros [? ?]; discriminate].
-        unfold lur_step. destruct du; [|discriminate].
-        match goal with |- context [if ?c then Error _ else _] => destruct c end; [discriminate|].
-        match goal with |- context [if ?c then _ else _] => destruct c end; discriminate.
   - apply bind_no_append; [|discriminate]. unfold on_resume. destruct (sty cfg); [discriminate|].
     destruct (find t (trials st)) as [rec|]; [|discriminate]. destruct (paused_at _ _); [|discriminate].
     destruct (negb _); [discriminate|]. destruct (decision_eqb _ _); [discriminate|].
@@ -665,38 +673,44 @@ Proof.
   destruct (negb (keep_case rec)); [apply same_for_remove_case; exact Hne | intro E; inversion E; subst; apply same_for_refl].
 Qed.
 
+Lemma report_core_same_for st t r v cont st' d t' : report_core cfg st t r v cont = Ok (st', d) -> t' <> t ->
+  same_for t' (srch st) (srch st') (reps st) (reps st') /\ find t' (trials st') = find t' (trials st).
+Proof.
+  unfold report_core. intros E Hne.
+  destruct (on_trial_result cfg st t r v cont) as [[st1 d1]|] eqn:E1; cbn in E; [|discriminate].
+  assert (H1 : same_for t' (srch st) (srch st1) (reps st) (reps st1) /\ find t' (trials st1) = find t' (trials st)).
+  { unfold on_trial_result in E1. destruct (find t (trials st)) as [rec|]; [|discriminate].
+    destruct (dec rec); try (inversion E1; subst; cbn; split; [apply same_for_refl | reflexivity]).
+    destruct (on_task_report cfg rec r cont) as [[rec1 ti]|]; cbn in E1; [|discriminate].
+    destruct (ignore_data ti).
+    { inversion E1; subst. cbn. split; [apply same_for_refl | apply find_upd_other; exact Hne]. }
+    destruct (update_searcher cfg (srch st) rec1 t r ti) as [[du s1]|] eqn:EU; cbn in E1; [|discriminate].
+    destruct (lur_step _ r du) as [[du2 rec3]|]; cbn in E1; [|discriminate].
+    inversion E1; subst. cbn [srch trials reps]. split; [|apply find_upd_other; exact Hne].
+    unfold update_searcher in EU.
+    destruct (if fst (us_plan cfg r ti) then us_internal cfg (srch st) rec1 t else Ok (srch st)) as [sa|] eqn:EA; cbn in EU; [|discriminate].
+    destruct (register_all sa t _) as [sb|] eqn:EB; cbn in EU; [|discriminate]. inversion EU; subst.
+    assert (same_for t' (srch st) sa (reps st) (reps st)).
+    { destruct (fst (us_plan cfg r ti)); [eapply same_for_us_internal; eauto | inversion EA; subst; apply same_for_refl]. }
+    eapply same_for_trans; [exact H|]. eapply same_for_trans; [eapply same_for_register_all; eauto|].
+    destruct du2; [apply same_for_label; exact Hne | apply same_for_refl]. }
+  inversion E; subst. destruct d1; auto; unfold on_trial_remove; destruct (find t (trials st1)); cbn; auto;
+    destruct H1 as [A B]; (split; [exact A | rewrite find_upd_other; auto]).
+Qed.
+
 (* frame of the whole step: entries of every other trial are untouched *)
 Lemma step_same_for st e st' d t' :
   step cfg st e = Ok (st', d) ->
-  t' <> match e with Start t _ | Report t _ _ _ | Resume t _ | Complete t _ _ | Fail t => t end ->
+  t' <> match e with Start t _ | Report t _ _ _ | Resume t _ | Complete t _ _ | Fail t | Late t _ _ => t end ->
   same_for t' (srch st) (srch st') (reps st) (reps st') /\ find t' (trials st') = find t' (trials st).
 Proof.
-  destruct e as [t b|t r v cont|t b|t r v|t]; cbn [step]; intros E Hne.
+  destruct e as [t b|t r v cont|t b|t r v|t|t r v]; cbn [step]; intros E Hne; try (exact (report_core_same_for _ _ _ _ _ _ _ _ E Hne)).
   - unfold on_start in E. destruct (find t (trials st)) eqn:EF; [discriminate|].
     destruct (register_all _ _ _) as [s1|] eqn:ER; cbn in E; [|discriminate]. inversion E; subst. cbn [srch trials reps].
     split; [eapply same_for_register_all; eauto|]. rewrite find_app_new. destruct (find t' (trials st)); [reflexivity|].
     destruct (t =? t') eqn:E2; [lia | reflexivity].
-  - set (st0 := {| srch := srch st; trials := trials st; reps := note_rep (t, r) v (reps st) |}) in E.
-    destruct (on_trial_result cfg st0 t r v cont) as [[st1 d1]|] eqn:E1; cbn in E; [|discriminate].
-    assert (H1 : same_for t' (srch st) (srch st1) (reps st) (reps st1) /\ find t' (trials st1) = find t' (trials st)).
-    { unfold on_trial_result in E1. cbn [trials srch reps st0] in E1. destruct (find t (trials st)) as [rec|]; [|discriminate].
-      destruct (dec rec); try (inversion E1; subst; cbn; split; [apply same_for_note; exact Hne | reflexivity]).
-      destruct (on_task_report cfg rec r cont) as [[rec1 ti]|]; cbn in E1; [|discriminate].
-      destruct (ignore_data ti).
-      { inversion E1; subst. cbn. split; [apply same_for_note; exact Hne | apply find_upd_other; exact Hne]. }
-      destruct (update_searcher cfg (srch st) rec1 t r ti) as [[du s1]|] eqn:EU; cbn in E1; [|discriminate].
-      destruct (lur_step _ r du) as [[du2 rec3]|]; cbn in E1; [|discriminate].
-      inversion E1; subst. cbn [srch trials reps]. split; [|apply find_upd_other; exact Hne].
-      unfold update_searcher in EU.
-      destruct (if fst (us_plan cfg r ti) then us_internal cfg (srch st) rec1 t else Ok (srch st)) as [sa|] eqn:EA; cbn in EU; [|discriminate].
-      destruct (register_all sa t _) as [sb|] eqn:EB; cbn in EU; [|discriminate]. inversion EU; subst.
-      eapply same_for_trans; [apply (same_for_note t t' (srch st) r v (reps st) Hne)|].
-      assert (same_for t' (srch st) sa (note_rep (t, r) v (reps st)) (note_rep (t, r) v (reps st))).
-      { destruct (fst (us_plan cfg r ti)); [eapply same_for_us_internal; eauto | inversion EA; subst; apply same_for_refl]. }
-      eapply same_for_trans; [exact H|]. eapply same_for_trans; [eapply same_for_register_all; eauto|].
-      destruct du2; [apply same_for_label; exact Hne | apply same_for_refl]. }
-    inversion E; subst. destruct d1; auto; unfold on_trial_remove; destruct (find t (trials st1)); cbn; auto;
-      destruct H1 as [A B]; (split; [exact A | rewrite find_upd_other; auto]).
+  - destruct (report_core_same_for _ _ _ _ _ _ _ _ E Hne) as [A B]. cbn [srch trials reps] in A, B. split; [|exact B].
+    eapply same_for_trans; [apply (same_for_note t t' (srch st) r v (reps st) Hne) | exact A].
   - unfold on_resume in E. destruct (sty cfg); [discriminate|]. destruct (find t (trials st)) as [rec|]; [|discriminate].
     destruct (paused_at _ _) as [L|]; [|discriminate]. destruct (negb _); [discriminate|].
     destruct (decision_eqb _ _); [discriminate|].
@@ -1049,7 +1063,7 @@ Proof.
   destruct (find t (trials st)) as [rec|] eqn:Hf; [|discriminate].
   apply andb_true_iff in Hl as [Hd Hl].
   assert (Hdec : dec rec = CONTINUE) by (destruct (dec rec); cbn in Hd; congruence).
-  cbn [step]. set (rp' := note_rep (t, r) v (reps st)).
+  cbn [step]. unfold report_core. set (rp' := note_rep (t, r) v (reps st)).
   unfold on_trial_result. cbn [trials srch reps]. rewrite Hf, Hdec.
   assert (Hmono : forall x v0, lookup_rep (t, x) (reps st) = Some v0 -> lookup_rep (t, x) rp' = Some v0).
   { intros x v0 E. subst rp'. rewrite lookup_note, E. reflexivity. }
@@ -1259,8 +1273,33 @@ Proof.
     + intros x Hx. specialize (g_dense0 x Hx). destruct (lookup_rep (t, x) (reps st)) eqn:EL; [|congruence].
       rewrite (Hmono _ _ EL). discriminate.
 Qed.
+(* --- late report of a trial that is not running ------------------------ *)
+Lemma own_late st t r v rec : Inv st -> find t (trials st) = Some rec -> dec rec <> CONTINUE ->
+  step cfg st (Late t r v) = Ok (on_trial_remove st t, Some (dec rec)) /\
+  NoDup (pend (srch (on_trial_remove st t))) /\
+  exists rec', find t (trials (on_trial_remove st t)) = Some rec' /\
+               Good (srch (on_trial_remove st t)) (reps (on_trial_remove st t)) t rec'.
+Proof.
+  intros [Hnd [Hno Hall]] Hf Hd. pose proof (Hall t) as G. rewrite Hf in G.
+  destruct (late_report_ignored cfg st t r v true rec Hf Hd) as [E _].
+  split.
+  { cbn [step]. unfold report_core. rewrite E. cbn [bind]. destruct (dec rec); [congruence | reflexivity | reflexivity]. }
+  unfold on_trial_remove. rewrite Hf. cbn [srch trials reps]. split; [exact Hnd|].
+  exists (cleanup_rec rec PAUSE). split; [apply find_upd_same|].
+  assert (HP : forall p, ~ In (t, p) (pend (srch st))).
+  { intros p Hin. destruct (g_pend _ _ _ _ G p Hin). congruence. }
+  destruct G. constructor; try rewrite hi_cleanup; auto.
+  - intros p Hin. destruct (HP p Hin).
+  - intros p m Hin. destruct (HP p Hin).
+  - cbn. discriminate.
+  - intros HS L p Hin. destruct (g_rungs0 HS L p Hin) as [A [B C]]. split; [exact A|]. split; [exact B|].
+    intro Hp. destruct (C Hp) as [_ [C2 C3]]. split; [cbn; discriminate | auto].
+  - intros x c Hin. specialize (g_pol0 x c Hin). cbn [cleanup_rec dec reported in_rungs]. unfold in_rung in *. cbn [cleanup_rec in_rungs].
+    destruct (pol cfg); auto. destruct g_pol0 as [H|[_ H]]; [left; exact H | right; split; [discriminate | exact H]].
+Qed.
+
 Definition trial_of (e : event) : Z :=
-  match e with Start t _ | Report t _ _ _ | Resume t _ | Complete t _ _ | Fail t => t end.
+  match e with Start t _ | Report t _ _ _ | Resume t _ | Complete t _ _ | Fail t | Late t _ _ => t end.
 
 Lemma assemble st e st' d :
   Inv st -> step cfg st e = Ok (st', d) -> NoDup (pend (srch st')) ->
@@ -1280,7 +1319,11 @@ Qed.
 
 Theorem step_inv st e : Inv st -> legal_b cfg st e = true -> exists st' d, step cfg st e = Ok (st', d) /\ Inv st'.
 Proof.
-  intros HI Hl. destruct e as [t b|t r v cont|t b|t r v|t].
+  intros HI Hl. destruct e as [t b|t r v cont|t b|t r v|t|t r v].
+  6:{ cbn [legal_b] in Hl. destruct (find t (trials st)) as [rec|] eqn:Hf; [|discriminate].
+      assert (Hd : dec rec <> CONTINUE) by (intro E; rewrite E in Hl; discriminate).
+      destruct (own_late st t r v rec HI Hf Hd) as [ES [Hnd HG]].
+      exists (on_trial_remove st t), (Some (dec rec)). split; [exact ES | eapply assemble; eauto]. }
   - destruct (own_start st t b HI Hl) as [st' [E [Hnd HG]]]. exists st', None.
     assert (ES : step cfg st (Start t b) = Ok (st', None)) by (cbn [step]; rewrite E; reflexivity).
     split; [exact ES | eapply assemble; eauto].
